@@ -51,7 +51,14 @@ func main() {
 	}
 	mk := func() *dbt.Env {
 		hists++
-		e := dbt.Open(table, trace, g, nil)
+		var store lungo.Store
+		var flaky *dbt.FlakyStore
+		if mode == "ttl" {
+			flaky = &dbt.FlakyStore{Inner: lungo.NewMemoryStore()}
+			store = flaky
+		}
+		e := dbt.Open(table, trace, g, store)
+		e.Flaky = flaky
 		e.OnCall = func(op string, failed bool) {
 			ops[op]++
 			if failed {
